@@ -24,8 +24,13 @@ namespace Skalo
 abbrev Graph := List (Nat × List Nat)      -- all_kmers: (k-1)-mer -> successors
 abbrev Colours := List (Nat × List Nat)    -- kmer_2_samples: k-mer -> ascending sample indices
 
-/-- `entry(a).or_default().push(b)` -/
+/-- `entry(a).or_default().push(b)` (the shortcut edges of `compact_graph`) -/
 def addEdge (g : Graph) (a b : Nat) : Graph := Assoc.upsert g a [b] (fun l => l ++ [b])
+
+/-- `build_graph`: `entry(a).or_default()`, then `push(b)` unless `b` is already a successor (an edge
+is stored once: a split k-mer with self-complementary arms yields the same edges from both strands) -/
+def addEdgeOnce (g : Graph) (a b : Nat) : Graph :=
+  Assoc.upsert g a [b] (fun l => if l.contains b then l else l ++ [b])
 
 /-- `entry(k).or_insert_with(|| s)` -/
 def addColour (c : Colours) (k : Nat) (s : List Nat) : Colours := Assoc.upsert c k s id
@@ -34,7 +39,7 @@ def addColour (c : Colours) (k : Nat) (s : List Nat) : Colours := Assoc.upsert c
 def buildGraph (W : Nat) (a : Arr) : Graph × Colours :=
   (a.kmers.zip a.variants).foldl (fun (acc : Graph × Colours) kv =>
     let (es, cs) := rowGraph W a.k kv.1 kv.2
-    (es.foldl (fun g e => addEdge g e.1 e.2) acc.1, cs.foldl (fun c e => addColour c e.1 e.2) acc.2))
+    (es.foldl (fun g e => addEdgeOnce g e.1 e.2) acc.1, cs.foldl (fun c e => addColour c e.1 e.2) acc.2))
     ([], [])
 
 def succs (g : Graph) (x : Nat) : List Nat := (Assoc.lookup g x).getD []
